@@ -4,4 +4,5 @@ open Extracted
 let () =
   match Array.to_list Sys.argv with
   | _ :: "c16" :: path :: mm :: _ -> Spec_cmds.c16 ~model:validate_config path mm
+  | _ :: "c15" :: path :: mm :: _ -> Spec_cmds.c15 ~model:(is_permanent, is_transient) path mm
   | _ -> prerr_endline "usage: oracle <command> <cases> <mismatch-out>"; exit 2
